@@ -48,6 +48,19 @@ def plan_st(draw, tier):
         gen.step_any(h, gen.ARM_KINDS + gen.WARM_KINDS, True)
     for _ in range(draw(st.integers(1, 14 if tier == "quick" else 25))):
         gen.step_any(h, kinds, True)
+        if h.has_prob_list and h.fitted and len(h.arms) > 1 and h._free_labels() and draw(st.integers(0, 5)) == 0:
+            # a bandit constructed with no_nhood_prob_of_arm: the positional list has a meaning again once a removed
+            # arm has been replaced (same number of arms) - the draw for rows without neighbours ranges over the
+            # current arms
+            a = draw(st.sampled_from(h.arms))
+            h.arms.remove(a)
+            h.removed.append(a)
+            h.ops.append(["remove_arm", a])
+            new = draw(st.sampled_from(h._free_labels()))
+            h.arms.append(new)
+            h.ops.append(["add_arm", new])
+            for _ in range(draw(st.integers(1, 3))):
+                h.predict()
         if h.fitted and h.can_add() and draw(st.integers(0, 11)) == 0:
             # every arm the bandit has is replaced by a new one: queries answered by arms without any trained state
             # (no tree, no regression rows, no observations), the context width known only from the last fit
